@@ -102,7 +102,7 @@ class BuiltinConverterProvider(ConverterProvider):
         coercer: Coercer,
     ) -> tuple[str, Mapping[str, object]]:
         builder = CodeBuilder()
-        namespace = BuiltinCascadeNamespace(occupied=signature.parameters.keys())
+        namespace = BuiltinCascadeNamespace(occupied={*signature.parameters.keys(), closure_name})
         namespace.add_outer_constant("_closure_signature", signature)
         namespace.add_outer_constant("_stub_function", stub_function)
         namespace.add_outer_constant("_update_wrapper", update_wrapper)
